@@ -357,6 +357,13 @@ def p4(prog, ctx):
                         """assigned inside this flag block and never read outside it"""
                         stored_in = {x.id for x in ast.walk(i) if isinstance(x, ast.Name) and isinstance(x.ctx, ast.Store)}
                         outside = [x for x in walk_no_nested(f) if isinstance(x, ast.Name) and x.id in names and not _within(x, i)]
+                        # a constant initialisation outside the block (x = None / 0 / []) does not make the name live outside it;
+                        # nor does a use inside another block controlled by the same flag
+                        outside = [x for x in outside if not (
+                            isinstance(x.ctx, ast.Store) and isinstance(getattr(x, "_parent", None), ast.Assign)
+                            and isinstance(x._parent.value, (ast.Constant, ast.List, ast.Dict)) and not getattr(x._parent.value, "elts", None)
+                            and not getattr(x._parent.value, "keys", None))]
+                        outside = [x for x in outside if not any(_within(x, j) and flag in [src(a) for a in flow.atoms(j.test)] for j in flagged)]
                         return names <= stored_in and not outside
                     if isinstance(sub, (ast.Assign, ast.AugAssign)):
                         tg = sub.targets if isinstance(sub, ast.Assign) else [sub.target]
